@@ -20,6 +20,10 @@
 #define RP_STUB_SHA
 #define RP_STUB_SCALAR_ALG
 #define RP_STUB_READERS
+#ifdef RP_REWIND_UNIT
+#define RP_STUB_MEMCPY
+#define RP_STUB_MEMSET
+#endif
 #define RP_GENRAND
 #define RP_CH32XOR
 #include "assumed_rangeproof.h"
@@ -28,6 +32,12 @@
 #define MAXP 6000
 #define MAXE 100000
 #define MAXM 5000
+/* MAXMAN < 64 gives a BOUNDED stand-in (quick tier): headers with a larger mantissa are excluded by an
+ * assumption on the proof bytes; the unbounded units (thorough tier) are the same harness with MAXMAN = 64. */
+#ifndef MAXMAN
+#define MAXMAN 64
+#endif
+#define BOUND_MANTISSA(proof, plen) __CPROVER_assume(MAXMAN >= 64 || (plen) < 2 || !((proof)[0] & 64) || (proof)[1] < MAXMAN)
 
 static void api_reset(void) {
     g_xq_n = 0; g_xq_hit = 0; g_xq_and = 1; g_xq_watch = -1; g_sq_n = 0; g_sq_hit = 0; g_sq_watch = -1; g_ag_n = 0; g_ag_hit = 0; g_ag_last_inf = 0; g_ag_watch = -1;
@@ -66,13 +76,14 @@ void h_verify(void) {
     unsigned char *proof, *extra; secp256k1_context ctx; int ret; uint64_t minv = 77, maxv = 77;
     size_t off = 0; int hexp, hman, hret; uint64_t hscale, hmin, hmax;
     __CPROVER_assume(plen <= MAXP && eclen <= MAXE);
-    INPUT_BUF(pf, proof, plen, 32);
+    INPUT_BUF(pf, proof, plen, 2);
     INPUT_BUF(ex, extra, eclen, 8);
+    BOUND_MANTISSA(proof, plen);
     verif_ctx_init(&ctx); ctx.hash_ctx.fn_sha256_compression = secp256k1_sha256_transform;
     api_reset();
     ret = secp256k1_rangeproof_verify(&ctx, use_min ? &minv : NULL, use_max ? &maxv : NULL, use_commit ? &commit : NULL, use_proof ? proof : NULL, plen,
                                       use_extra ? extra : NULL, eclen, use_gen ? &gen : NULL);
-    WITNESS_BUF(pf, proof, plen, 32);
+    WITNESS_BUF(pf, proof, plen, 2);
     __CPROVER_assert(ret == 0 || ret == 1, "C07 rangeproof_verify: returns 0 or 1");
     __CPROVER_assert(g_error == 0, "C07 rangeproof_verify: never the error callback");
     if (use_min && use_max && use_commit && use_proof && use_gen && (use_extra || eclen == 0)) {
@@ -83,7 +94,7 @@ void h_verify(void) {
             __CPROVER_assert(hret == 1 && minv == hmin && maxv == hmax && minv <= maxv, "C10 rangeproof_verify: reported [min,max] is the header range, min <= max < 2^64");
             __CPROVER_assert(g_bv_n == 1 && g_bv_v == 1, "C10 rangeproof_verify: accepts only on a positive ring verdict");
         }
-        if (ret && plen == 5134) REACH("verify API accepts the largest proof");
+        if (ret && plen == (MAXMAN >= 64 ? 5134 : 10 + 32 * (2 * MAXMAN + (MAXMAN + 1) / 2 - 1) + 32 + ((MAXMAN + 1) / 2 + 6) / 8)) REACH("verify API accepts the largest proof");
         if (ret && plen == 65) REACH("verify API accepts the smallest proof");
         if (!ret && g_bv_n == 1) REACH("verify API rejects on the ring verdict");
     } else {
@@ -99,23 +110,24 @@ void h_rewind(void) {
     INPUT(secp256k1_pedersen_commitment, commit); INPUT(secp256k1_generator, gen); INPUT_ARR(unsigned char, nonce, 32);
     unsigned char *proof, *extra, *msg; unsigned char blind[32]; secp256k1_context ctx; int ret; uint64_t minv = 77, maxv = 77, value = 77; size_t outlen;
     __CPROVER_assume(plen <= MAXP && eclen <= MAXE && outlen_in <= MAXM);
-    INPUT_BUF(pf, proof, plen, 32);
+    INPUT_BUF(pf, proof, plen, 2);
     INPUT_BUF(ex, extra, eclen, 8);
     INPUT_BUF(mg, msg, outlen_in, 8);
+    BOUND_MANTISSA(proof, plen);
     verif_ctx_init(&ctx); ctx.hash_ctx.fn_sha256_compression = secp256k1_sha256_transform; ctx.ecmult_gen_ctx.built = 1;
     api_reset();
     outlen = outlen_in;
     ret = secp256k1_rangeproof_rewind(&ctx, use_blind ? blind : NULL, use_value ? &value : NULL, use_msg ? msg : NULL, use_outlen ? &outlen : NULL, use_nonce ? nonce : NULL,
                                       use_min ? &minv : NULL, use_max ? &maxv : NULL, use_commit ? &commit : NULL, use_proof ? proof : NULL, plen,
                                       use_extra ? extra : NULL, eclen, use_gen ? &gen : NULL);
-    WITNESS_BUF(pf, proof, plen, 32);
+    WITNESS_BUF(pf, proof, plen, 2);
     __CPROVER_assert(ret == 0 || ret == 1, "C07 rangeproof_rewind: returns 0 or 1");
     __CPROVER_assert(g_error == 0, "C07 rangeproof_rewind: never the error callback");
     if (use_commit && use_proof && use_min && use_max && (use_msg || !use_outlen) && use_nonce && (use_extra || eclen == 0) && use_gen) {
         __CPROVER_assert(g_illegal == 0, "C07 rangeproof_rewind: no callback for non-NULL arguments, whatever the bytes");
         __CPROVER_assert(outlen <= outlen_in, "C07 rangeproof_rewind: reported message length never exceeds the buffer length given");
         if (g_gr_n == 1) __CPROVER_assert(g_gr_nonce == nonce && g_gr_proof == proof && g_gr_len >= 1 && g_gr_len <= 10, "C09 rangeproof_rewind: random stream re-seeded with the caller's nonce and the proof header");
-        if (ret && use_msg && use_outlen && outlen == 3968) REACH("rewind API recovers a full-length message");
+        if (ret && use_msg && use_outlen && outlen == 128 * ((MAXMAN + 1) / 2 - 1) && outlen > 0) REACH("rewind API recovers a full-length message");
         if (ret && use_outlen && outlen_in > 0 && outlen < outlen_in) REACH("rewind API shortens the message length");
         if (ret && !use_msg && !use_outlen && use_blind && use_value) REACH("rewind API without message buffer");
         if (!ret && g_gr_n == 1) REACH("rewind API fails after re-deriving the stream");
